@@ -212,12 +212,12 @@ CLAUSES = {
     6: "a running child was not stopped after another child failed",
     7: "Run() returned an error wrapping ErrRunnableFailed, but a state observed after its return is not Error",
     10: "Reload() did not return", 11: "Reload() on a Running composite did not consult the callback",
-    12: "identity set unchanged, yet a child was stopped or started",
-    13: "identity set unchanged, but the children did not receive exactly one ReloadWithConfig(new config) each, in order",
+    12: "runnable identities unchanged (same names with the same multiplicities), yet a child was stopped or started",
+    13: "runnable identities unchanged, but the children did not receive exactly one ReloadWithConfig(new config) each, in order",
     14: "state is not Running after a successful Reload()",
-    15: "identity set changed, but a previously running child was not stopped before the first child of the new configuration started",
-    16: "identity set changed, but the children started are not exactly the new configuration",
-    17: "identity set changed, yet ReloadWithConfig/Reload was called on a child",
+    15: "runnable identities changed (as a multiset of names), but a previously running child was not stopped before the first child of the new configuration started",
+    16: "runnable identities changed, but the children started are not exactly the new configuration",
+    17: "runnable identities changed, yet ReloadWithConfig/Reload was called on a child",
     18: "failed callback, yet a child was touched", 19: "failed callback, but the state is not Error",
     30: "no Reload() in flight, but the runner does not hold the configuration most recently returned by its callback",
     20: "Running and no reload in progress, but the running children are not exactly the configured ones",
